@@ -14,7 +14,45 @@ def tiers(q_runs, q_budget, t_runs, t_budget, **kw):
     return {"quick": q, "thorough": t}
 
 
+def loop_jobs(sets, params=None, variants=("a", "n")):
+    js = []
+    for k in sets:
+        for v in variants:
+            j = dict(harness="c01_foreach_%d" % k, variant=v, weight=2 if v == "a" else 1,
+                     build=dict(sources=["/verif/harness/c01_foreach.cpp"], extra_flags=["-DWLSET=%d" % k]))
+            if params:
+                j["params"] = dict(params)
+            js.append(j)
+    return js
+
+
 PROPS = {
+    "C01": dict(
+        jobs=loop_jobs([0, 1, 2, 3]),
+        components=comp(), expected_probes=["attempts_aborted", "voluntary_aborts", "runs_with_aborts"],
+        design_ref="3.1",
+        level_text="Seeded exploration of for_each over all 18 shipped worklists (33 instantiations incl. chunk sizes, OBIM options, initial-range kinds, per-iteration allocator) x conflict detection on/off, "
+                   "running generated operator programs (item forests with pushes before/after the last acquire, voluntary and conflict aborts) on 1-16 threads and synthetic 1-4 socket topologies. "
+                   "Oracle: per-item ledger (exactly-once commit of the closure, nothing else runs, no push of an uncommitted attempt becomes work), loop return via deadlock / no-progress detection.",
+        level_note="Sampling over seeds. Known findings (BulkSynchronous with conflict detection; voluntary abort with one active thread) are matched by exact signature only.",
+        **tiers(12000, 150, 300000, 1800)),
+    "C02": dict(
+        jobs=loop_jobs([0, 1, 2], params={"focus": 2}),
+        components=comp(), expected_probes=["attempts_aborted", "runs_with_aborts"],
+        design_ref="3.2",
+        level_text="Same simulated loops as C01 biased to overlapping neighbourhoods (2-6 lockables, re-acquisition, READ/WRITE/UNPROTECTED mixes, voluntary aborts, >= 2 threads). "
+                   "Oracles: ownership stamps on every owned object inside the post-acquire window (double owner), stamps/locks left after the loop (leak), serial replay of the commit log "
+                   "(serialisability), per-iteration allocator blocks disjoint and intact within an attempt, HB check on all object data (lockable hand-over).",
+        level_note="Sampling over seeds; pre-emption happens at every atomic operation of Context.cpp / PtrLock, so the try-lock/set-owner and release windows are scheduling points.",
+        **tiers(10000, 150, 250000, 1800)),
+    "C08": dict(
+        jobs=loop_jobs([3]),
+        components=comp(), expected_probes=["attempts_aborted", "items_committed"],
+        design_ref="3.8",
+        level_text="Seeded exploration of BulkSynchronous (two containers) and OrderedByIntegerMetric with_barrier<true> (ascending, descending, monotonic) plus the non-barrier OBIM variants for conservation, "
+                   "with monotone operator programs and sparse/dense priorities. Oracle: at every operator start no existing uncommitted item of an earlier level / more urgent priority (events ordered by the simulator's logical clock) + C01 ledger.",
+        level_note="Sampling over seeds. BulkSynchronous with conflict detection is a known finding (aborted items are retried outside pop()).",
+        **tiers(8000, 120, 200000, 1500)),
     "C05": dict(
         jobs=[dict(harness="c05_barrier", variant="a", weight=2), dict(harness="c05_barrier", variant="n", weight=1)],
         components=comp(), expected_probes=["region_fastmode", "region_sleepmode"],
